@@ -214,3 +214,98 @@ func spliceGatedHelpers(p *packages.Package, list []ast.Stmt, depth int) []ast.S
 	}
 	return out
 }
+
+// switchToIfChain rewrites every tagless `switch { case c1: A; case c2, c3: B; default: C }` in the list (recursively)
+// as `if c1 { A } else if c2 || c3 { B } else { C }`, so that rules which read if/else chains see both spellings. A
+// switch with an init statement, a fallthrough, or an unlabelled break that belongs to the switch is left alone (a
+// break means something else inside an if). Statement and expression nodes are shared with the original tree.
+func switchToIfChain(list []ast.Stmt) []ast.Stmt {
+	out := make([]ast.Stmt, 0, len(list))
+	for _, st := range list {
+		out = append(out, switchToIfStmt(st))
+	}
+	return out
+}
+
+func switchToIfBlock(b *ast.BlockStmt) *ast.BlockStmt {
+	if b == nil {
+		return nil
+	}
+	return &ast.BlockStmt{Lbrace: b.Lbrace, List: switchToIfChain(b.List), Rbrace: b.Rbrace}
+}
+
+func switchToIfStmt(st ast.Stmt) ast.Stmt {
+	switch t := st.(type) {
+	case *ast.BlockStmt:
+		return switchToIfBlock(t)
+	case *ast.IfStmt:
+		c := *t
+		c.Body = switchToIfBlock(t.Body)
+		if t.Else != nil {
+			c.Else = switchToIfStmt(t.Else)
+		}
+		return &c
+	case *ast.ForStmt:
+		c := *t
+		c.Body = switchToIfBlock(t.Body)
+		return &c
+	case *ast.RangeStmt:
+		c := *t
+		c.Body = switchToIfBlock(t.Body)
+		return &c
+	case *ast.LabeledStmt:
+		c := *t
+		c.Stmt = switchToIfStmt(t.Stmt)
+		return &c
+	case *ast.SwitchStmt:
+		if t.Tag != nil || t.Init != nil {
+			return st
+		}
+		ownBreak := false
+		var walk func(n ast.Node)
+		walk = func(n ast.Node) {
+			ast.Inspect(n, func(m ast.Node) bool {
+				switch x := m.(type) {
+				case *ast.FuncLit, *ast.ForStmt, *ast.RangeStmt, *ast.SwitchStmt, *ast.TypeSwitchStmt, *ast.SelectStmt:
+					return m == n
+				case *ast.BranchStmt:
+					if x.Tok == token.FALLTHROUGH || (x.Tok == token.BREAK && x.Label == nil) {
+						ownBreak = true
+					}
+				}
+				return true
+			})
+		}
+		var head, cur *ast.IfStmt
+		var deflt *ast.CaseClause
+		for _, cl := range t.Body.List {
+			cc := cl.(*ast.CaseClause)
+			for _, s := range cc.Body {
+				walk(s)
+			}
+			if cc.List == nil {
+				deflt = cc
+				continue
+			}
+			cond := cc.List[0]
+			for _, e := range cc.List[1:] {
+				cond = &ast.BinaryExpr{X: cond, OpPos: e.Pos(), Op: token.LOR, Y: e}
+			}
+			arm := &ast.IfStmt{If: cc.Pos(), Cond: cond, Body: &ast.BlockStmt{Lbrace: cc.Colon, List: switchToIfChain(cc.Body), Rbrace: cc.End()}}
+			if head == nil {
+				head = arm
+			} else {
+				cur.Else = arm
+			}
+			cur = arm
+		}
+		if ownBreak || head == nil {
+			return st
+		}
+		if deflt != nil {
+			cur.Else = &ast.BlockStmt{Lbrace: deflt.Colon, List: switchToIfChain(deflt.Body), Rbrace: deflt.End()}
+		}
+		return head
+	}
+	return st
+}
